@@ -1,11 +1,13 @@
 """Shared texts and helpers for the per-property modules."""
+import os
+TH = int(os.environ.get('VERIF_THOROUGH_SCALE', '20'))   # multiplier of the thorough tier's main case counts
 import sys, os
 sys.path.insert(0, os.path.dirname(os.path.dirname(os.path.abspath(__file__))))
 from gen import ebml as E
 
 TRUSTED_BASE = [
     "Coq 8.16.1 kernel (coqc), vm_compute; no native_compute",
-    "hand-written Gallina model (coq/theories/Model/{Base,Tools,Spec,Writer,Reader}.v) of /repo's Rust sources, tied to /repo only by this correspondence run (differential testing)",
+    "hand-written Gallina model (coq/theories/Model/{Base,Tools,Spec,Writer,Reader,Pure,Derive}.v; Model/Encode.v and the definitions in Proofs/ are specification-level only) of /repo's Rust sources, tied to /repo only by this correspondence run (differential testing)",
     "extraction (ExtrOcamlBasic only, no Extract Constant) + ocaml/{conv,syntax,cmds,tools_cmd,driver}.ml parsers/printers (zarith for decimal conversion)",
     "Rust harness harness/src/*.rs (DynSpec runtime-table specification, scripted Read/Write/AsyncRead, catch_unwind), built twice: overflow checks on / plain release",
     "Python generators and reference EBML semantics gen/ebml.py, per-property oracle (written from the property text)",
